@@ -19,7 +19,7 @@ RULE = ("(a) end-to-end: a flat dataclass over the CLI type grammar with a valid
 ASSUMPTIONS = ["argparse's error path = SystemExit(2) after printing usage + message to stderr (observed in-process)"]
 TRUSTED = ["stdlib argparse (modelled fragment compared directly against it on every run)"]
 EXHAUSTIVE = {"quick": False, "thorough": False}
-THOROUGH_ROUNDS = 6   # thorough tier: this many generator passes with derived PRNG states (vcheck)
+THOROUGH_ROUNDS = 3   # thorough tier: this many generator passes with derived PRNG states (vcheck)
 MANIFEST = {
     "text": ("Proof: over the Lean model of the argparse engine and of get_arg_options/postprocess — every exit "
              "status the engine produces other than for an explicit help request is 2 (no status 0, no other code) for "
